@@ -212,6 +212,18 @@ pub fn install_signal_handlers() {
 // ------------------------------------------------------------------ statistics
 pub const SIG_BITS: usize = 1 << 20;
 
+/// probe keys built at run time (harness memory, never tracked)
+pub fn intern(s: &str) -> &'static str {
+    static TABLE: std::sync::Mutex<Vec<&'static str>> = std::sync::Mutex::new(Vec::new());
+    let mut t = TABLE.lock().unwrap_or_else(|e| e.into_inner());
+    if let Some(k) = t.iter().find(|k| **k == s) {
+        return k;
+    }
+    let k: &'static str = Box::leak(s.to_string().into_boxed_str());
+    t.push(k);
+    k
+}
+
 pub struct Stats {
     pub runs: u64,
     pub steps: u64,
@@ -451,6 +463,7 @@ pub fn run_ops(ops: &[Op], opts: &RunOpts, stats: &mut Stats, hook: &mut dyn Ste
         let pp = primary_pool(&op.name);
         let (la, lb) = (layout_code(&w, pp, ix(op.a)), layout_code(&w, pp, ix(op.b)));
         let dst_block_before = block_of(&w, pp, ix(op.dst));
+        let overlong_before = w.any_overlong_float();
         let has_fault = op.fault.is_some();
         let alloc_fault = matches!(op.fault, Some(f) if f.kind == FaultKind::Alloc);
         if let Some(f) = op.fault {
@@ -660,6 +673,15 @@ pub fn run_ops(ops: &[Op], opts: &RunOpts, stats: &mut Stats, hook: &mut dyn Ste
                 (true, false) => stats.probe("clone_from.heap_to_inline"),
                 (false, true) => stats.probe("clone_from.inline_to_heap"),
                 _ => stats.probe("clone_from.inline"),
+            }
+        }
+        if !overlong_before && !op.name.starts_with("med.") {
+            // reach probe: which of dashu's own producers hand out a float holding more digits than its precision
+            for i in 0..env.nres {
+                let (p, s) = env.results[i];
+                if w.overlong_slot(p, s as usize) {
+                    stats.probe(intern(&format!("overlong_float_result.{}", op.name)));
+                }
             }
         }
         if fired && panicked {
